@@ -5,7 +5,7 @@ import numpy as np
 from . import gen, common
 
 
-def reader_population(n, seed, ndims=(2, 3), payloads=("random", "special"), max_levels=4,
+def reader_population(n, seed, ndims=(2, 3), payloads=("random", "special", "extreme"), max_levels=4,
                       max_fields=8):
     """n parameter sets for gen.gen_model + write format variants, spread over the classes the
     properties quantify over (dims, levels, bf incl. 1 => extent-1 boxes, layouts, payloads)."""
